@@ -411,3 +411,83 @@ class MutationSummaries:
         if isinstance(node, ast.List) and node.elts and isinstance(node.elts[0], ast.Tuple):
             return list(node.elts[0].elts)
         return None
+
+
+# ---------------------------------------------------------------------------------------------------
+# abstraction of a dictionary-valued argument (`**E`): which dictionary its keys come from, what its values are,
+# and which entries are filtered out — through local names, comprehensions, dict.fromkeys, dict(), .copy(), {**d}
+def dict_arg(expr: ast.AST, fn: Optional[ast.AST], depth: int = 0):
+    """→ (source text, value kind, filters) with value kind in {'same', '-inf', 'inf', 'const:<text>', 'other:<text>'} and
+    filters a list of normalised conditions on the entry value written with the canonical variable `v` (key `k`).
+    Returns None when the expression is not understood."""
+    INF = ("inf", "numpy.inf", "float('inf')", "math.inf")
+
+    def const_kind(v: ast.AST) -> Optional[str]:
+        if isinstance(v, ast.UnaryOp) and isinstance(v.op, ast.USub) and norm(v.operand) in INF:
+            return "-inf"
+        if norm(v) in INF:
+            return "inf"
+        if isinstance(v, ast.Constant):
+            return f"const:{norm(v)}"
+        return None
+
+    def compose(inner, val, filt):
+        if inner is None:
+            return None
+        src, ival, ifilt = inner
+        if val == "same":
+            val = ival
+        return (src, val, ifilt + filt)
+
+    if depth > 5:
+        return None
+    if isinstance(expr, ast.Name):
+        binds = []
+        if fn is not None:
+            for n in walk_ordered(fn):
+                if isinstance(n, (ast.Assign, ast.AnnAssign)) and n.value is not None:
+                    t = n.targets[0] if isinstance(n, ast.Assign) else n.target
+                    if isinstance(t, ast.Name) and t.id == expr.id:
+                        binds.append(n.value)
+        if len(binds) == 1:
+            r = dict_arg(binds[0], fn, depth + 1) if not (isinstance(binds[0], ast.Name) and binds[0].id == expr.id) else None
+            if r is not None:
+                return r
+            return (norm(binds[0]), "same", [])  # an opaque producer (e.g. self.get_default_lower_limits(*keys)): its text is the source
+        if len(binds) > 1:
+            return None
+        return (expr.id, "same", [])
+    if isinstance(expr, ast.DictComp) and len(expr.generators) == 1:
+        g = expr.generators[0]
+        it = g.iter
+        if isinstance(it, ast.Call) and isinstance(it.func, ast.Attribute) and it.func.attr == "items" and isinstance(g.target, ast.Tuple) and len(g.target.elts) == 2:
+            kn, vn = norm(g.target.elts[0]), norm(g.target.elts[1])
+            if norm(expr.key) != kn:
+                return None
+            ck = const_kind(expr.value)
+            val = "same" if norm(expr.value) == vn else (ck or f"other:{norm(expr.value)}")
+            import re as _re
+            filt = [_re.sub(rf"\b{_re.escape(vn)}\b", "v", _re.sub(rf"\b{_re.escape(kn)}\b", "k", norm(c))) for c in g.ifs]
+            return compose(dict_arg(it.func.value, fn, depth + 1), val, filt)
+        # keys only: {k: CONST for k in S} / S.keys()
+        src = it.func.value if isinstance(it, ast.Call) and isinstance(it.func, ast.Attribute) and it.func.attr == "keys" else it
+        if isinstance(g.target, ast.Name) and norm(expr.key) == g.target.id and not g.ifs:
+            ck = const_kind(expr.value)
+            if ck:
+                return compose(dict_arg(src, fn, depth + 1), ck, [])
+        return None
+    if isinstance(expr, ast.Call):
+        f = norm(expr.func)
+        if f == "dict.fromkeys" and len(expr.args) == 2:
+            ck = const_kind(expr.args[1])
+            if ck:
+                return compose(dict_arg(expr.args[0], fn, depth + 1), ck, [])
+            return None
+        if f == "dict" and len(expr.args) == 1 and not expr.keywords:
+            return dict_arg(expr.args[0], fn, depth + 1)
+        if isinstance(expr.func, ast.Attribute) and expr.func.attr == "copy" and not expr.args:
+            return dict_arg(expr.func.value, fn, depth + 1)
+        return (norm(expr), "same", [])
+    if isinstance(expr, ast.Dict) and len(expr.keys) == 1 and expr.keys[0] is None:
+        return dict_arg(expr.values[0], fn, depth + 1)
+    return None
